@@ -152,6 +152,13 @@ func cmdFunc(args []string) int {
 				con = lc
 			}
 		}
+		if con == nil && strings.HasPrefix(id, "theory:") {
+			for _, th := range CS.Theories {
+				if "theory:"+th.Name == id {
+					con = &Contract{Kind: "lemma", ID: id, Flags: map[string]bool{"$theory": true}}
+				}
+			}
+		}
 		if con == nil {
 			fmt.Printf("no contract for %s\n", id)
 			rc = 1
@@ -169,7 +176,13 @@ func cmdFunc(args []string) int {
 			fns = []*ssa.Function{nil}
 		}
 		for _, fn := range fns {
-		if con.Kind == "lemma" {
+		if con.Flags["$theory"] {
+			for _, th := range CS.Theories {
+				if "theory:"+th.Name == id {
+					c, err = verifyTheory(P, CS, th)
+				}
+			}
+		} else if con.Kind == "lemma" {
 			c, err = verifyLemma(P, CS, con)
 		} else {
 			c, err = verifyFunction(P, CS, fn, con)
@@ -309,8 +322,36 @@ func cmdCheck(args []string) int {
 			ctxs = append(ctxs, c)
 		}
 	}
+	// background theories used by some verification condition: their proved axioms are obligations of this check
+	{
+		used := map[string]bool{}
+		for _, c := range ctxs {
+			for t := range c.theoriesUsed {
+				used[t] = true
+			}
+		}
+		for _, th := range CS.Theories {
+			if !used[th.Name] || len(th.Proved) == 0 {
+				continue
+			}
+			rep := &funcReport{ID: "theory:" + th.Name, Arith: "int"}
+			rep.Notes = append(rep.Notes, fmt.Sprintf("background theory: %d axioms proved here (directly or by induction), %d definitional, %d trusted", len(th.Proved), len(th.Defs), len(th.Axioms)))
+			reports = append(reports, rep)
+			repByFn[rep.ID] = rep
+			c, err := verifyTheory(P, CS, th)
+			if err != nil {
+				rep.Error = err.Error()
+				violation("unverifiable:"+rep.ID, map[string]interface{}{"obligation": "vc-generation", "function": rep.ID, "error": err.Error()}, false)
+				continue
+			}
+			ctxs = append(ctxs, c)
+		}
+	}
 	for _, msg := range immutableCoverage(P, CS, *prop) {
 		violation("lock.coverage:"+truncate(msg, 80), map[string]interface{}{"obligation": "lock.coverage", "error": msg}, false)
+	}
+	for _, msg := range atomicCoverage(P, CS, *prop) {
+		violation("lock.atomic:"+truncate(msg, 80), map[string]interface{}{"obligation": "lock.atomic", "error": msg}, false)
 	}
 	for _, msg := range guardCoverage(P, CS, *prop) {
 		violation("lock.coverage:"+truncate(msg, 80), map[string]interface{}{"obligation": "lock.coverage", "error": msg}, false)
